@@ -430,9 +430,9 @@ func c08S4(r *Run, rep *core.Report) {
 			case ssa.CallInstruction:
 				if op, addr, ok := core.AtomicOp(x); ok && core.Addr(addr).Owner == r.M.StripeType() {
 					switch op {
-					case "Add":
-						nAdd++
-					case "Store", "Swap", "CAS":
+					case "Add", "CAS":
+						nAdd++ // an atomic add, or a compare-and-swap (the retry loop around it is a read-modify-write as well)
+					case "Store", "Swap":
 						nStore++
 						at = in
 					}
@@ -448,7 +448,7 @@ func c08S4(r *Run, rep *core.Report) {
 		if at != nil {
 			pos = r.P.InstrPos(at)
 		}
-		rep.Check(nAdd >= 1 && nStore == 0, "C08.S4", fn(h)+" atomic read-modify-write", pos, "the stripe is updated by a single atomic add", "the counter helper used on published tables does not update its stripe with a single atomic read-modify-write (load + store): two writers of buckets that share the stripe lose an update and Size stays wrong")
+		rep.Check(nAdd >= 1 && nStore == 0, "C08.S4", fn(h)+" atomic read-modify-write", pos, "the stripe is updated by an atomic read-modify-write (add or compare-and-swap)", "the counter helper used on published tables does not update its stripe with a single atomic read-modify-write (load + store): two writers of buckets that share the stripe lose an update and Size stays wrong")
 	}
 	for _, mm := range r.M.Maps {
 		for _, h := range []*ssa.Function{mm.AddSize, mm.AddPlain} {
